@@ -420,8 +420,20 @@ Fixpoint rwf (e : expr) : Prop :=
   | Neg a | ConjE a | AdjW a | TranspW a => rwf a
   | Pow a _ => rwf a /\ fst (shape a) = snd (shape a)
   | RealImag fw aj _ a => fw = true /\ aj = true /\ (wf a \/ rwf a)
-  | _ => False
+  | Cols cs a => rwf a /\ NoDup cs /\ Forall (fun c => c < snd (shape a)) cs
+  | VStack es => (fix all l := match l with [] => True | e :: l' => rwf e /\ all l' end) es
+                 /\ Forall (fun e' => snd (shape e') = snd (shape (VStack es))) es
+  | HStack es => (fix all l := match l with [] => True | e :: l' => rwf e /\ all l' end) es
+                 /\ Forall (fun e' => fst (shape e') = fst (shape (HStack es))) es
+  | BlockDiag es => (fix all l := match l with [] => True | e :: l' => rwf e /\ all l' end) es
+  | Kron a b => rwf a /\ rwf b
   end.
+Lemma rwf_all_Forall es : (fix all l := match l with [] => True | e :: l' => rwf e /\ all l' end) es <-> Forall rwf es.
+Proof. induction es as [|e es IH]; split; intros H0; auto.
+  - destruct H0; constructor; auto. apply IH; auto.
+  - inversion H0; subst; split; auto. apply IH; auto. Qed.
+Lemma Forall_mp {X} (P Q : X -> Prop) l : Forall (fun a => Q a -> P a) l -> Forall Q l -> Forall P l.
+Proof. induction 1; intros W; inversion W; subst; constructor; auto. Qed.
 (* replace every toreal/toimag node by a MatrixMult leaf holding Re / Im of its dense matrix *)
 Fixpoint erase (e : expr) : expr :=
   match e with
@@ -430,12 +442,23 @@ Fixpoint erase (e : expr) : expr :=
   | Neg a => Neg (erase a) | Pow a p => Pow (erase a) p
   | AdjW a => AdjW (erase a) | TranspW a => TranspW (erase a) | ConjE a => ConjE (erase a)
   | RealImag _ _ rl a => Leaf (fst (shape a)) (snd (shape a)) (if rl then mre S RI (dense a) else mim S RI (dense a))
-  | _ => e
+  | Cols cs a => Cols cs (erase a)
+  | VStack es => VStack (map erase es) | HStack es => HStack (map erase es) | BlockDiag es => BlockDiag (map erase es)
+  | Kron a b => Kron (erase a) (erase b)
+  | Leaf _ _ _ => e
   end.
 Definition inlen (d : dir) (e : expr) : nat := match d with Fwd => snd (shape e) | Adj => fst (shape e) end.
 
 Lemma erase_shape e : shape (erase e) = shape e.
-Proof. induction e using expr_ind'; cbn [erase shape]; rewrite ?IHe, ?IHe1, ?IHe2; auto. destruct (shape e); auto. Qed.
+Proof. induction e using expr_ind'; cbn [erase shape]; rewrite ?IHe, ?IHe1, ?IHe2; auto;
+  try (destruct (shape e); auto; fail);
+  match goal with HF : Forall _ ?l |- _ =>
+    assert (M1 : map (fun e => fst (shape e)) (map erase l) = map (fun e => fst (shape e)) l)
+      by (rewrite map_map; apply map_ext_in; intros a Ha; rewrite (proj1 (Forall_forall _ _) HF a Ha); auto);
+    assert (M2 : map (fun e => snd (shape e)) (map erase l) = map (fun e => snd (shape e)) l)
+      by (rewrite map_map; apply map_ext_in; intros a Ha; rewrite (proj1 (Forall_forall _ _) HF a Ha); auto);
+    rewrite ?M1, ?M2; f_equal; destruct HF as [|a0 l0 Ha0 _]; simpl; auto; rewrite Ha0; auto
+  end. Qed.
 Lemma isreal_sc d al : isreal S al -> sc d al = al.
 Proof. destruct d; auto. Qed.
 
@@ -450,6 +473,22 @@ Proof. induction e using expr_ind'; cbn [rwf erase wf dense]; try tauto.
   - intros B. destruct (IHe B) as [W1 D1]. unfold cols. rewrite !erase_shape, D1; auto.
   - intros B. destruct (IHe B) as [W1 D1]. unfold cols. rewrite !erase_shape, D1; auto.
   - intros B. destruct (IHe B) as [W1 D1]. rewrite D1; auto.
+  - (* Cols *) intros (A & ND & B). destruct (IHe A) as [W1 D1]. rewrite erase_shape, D1. auto.
+  - (* VStack *) intros (Rl & Wc). apply rwf_all_Forall in Rl. pose proof (Forall_mp _ _ _ H0 Rl) as HP.
+    change (VStack (map erase es)) with (erase (VStack es)). rewrite erase_shape. repeat split.
+    + apply wf_all_Forall. apply Forall_map. eapply Forall_impl; [|exact HP]. simpl; tauto.
+    + apply Forall_map. apply Forall_forall. intros a Ha. rewrite erase_shape. apply (proj1 (Forall_forall _ _) Wc a Ha).
+    + f_equal. rewrite map_map. apply map_ext_in. intros a Ha. apply (proj1 (Forall_forall _ _) HP a Ha).
+  - (* HStack *) intros (Rl & Wc). apply rwf_all_Forall in Rl. pose proof (Forall_mp _ _ _ H0 Rl) as HP.
+    unfold rows. change (HStack (map erase es)) with (erase (HStack es)). rewrite !erase_shape. repeat split.
+    + apply wf_all_Forall. apply Forall_map. eapply Forall_impl; [|exact HP]. simpl; tauto.
+    + apply Forall_map. apply Forall_forall. intros a Ha. rewrite erase_shape. apply (proj1 (Forall_forall _ _) Wc a Ha).
+    + f_equal. rewrite map_map. apply map_ext_in. intros a Ha. apply (proj1 (Forall_forall _ _) HP a Ha).
+  - (* BlockDiag *) intros Rl. apply rwf_all_Forall in Rl. pose proof (Forall_mp _ _ _ H0 Rl) as HP. split.
+    + apply wf_all_Forall. apply Forall_map. eapply Forall_impl; [|exact HP]. simpl; tauto.
+    + f_equal. rewrite map_map. apply map_ext_in. intros a Ha. unfold cols. rewrite erase_shape.
+      f_equal. apply (proj1 (Forall_forall _ _) HP a Ha).
+  - (* Kron *) intros (A & B). destruct (IHe1 A) as [W1 D1], (IHe2 B) as [W2 D2]. rewrite D1, D2. auto.
   - intros (-> & -> & [Wa | Ra]).
     + destruct (dense_wf _ Wa) as [Wd Ld]. unfold rows, cols in *.
       destruct rl; repeat split; auto; unfold mre, mim; rewrite ?map_length; auto; [apply mre_wf | apply mim_wf]; auto.
@@ -506,6 +545,65 @@ Proof. induction e using expr_ind'; cbn [rwf]; try tauto.
   - intros B d x Rx Hx. cbn [erase ap].
     destruct (IHe B d (vconj S x)) as [E1 R1]; [apply vreal_vconj; auto | rewrite vconj_length; destruct d; auto |].
     rewrite <- E1. split; auto. apply vreal_vconj; auto.
+  - (* Cols: both paths (explicit / scatter-gather) reduce to the scatter-gather form on the erased child *)
+    intros (A & ND & B) d x Rx Hx.
+    destruct (rwf_erase e A) as [W1 D1].
+    pose proof (ap_repr (erase e) W1) as HRe. unfold rows, cols in HRe. rewrite erase_shape in HRe.
+    pose proof (repr_cols S _ _ _ _ _ cs HRe ND B) as (WC & LC & FC & GC).
+    assert (W2 : wf (Cols cs (erase e))) by (cbn [wf]; rewrite erase_shape; auto).
+    destruct d; cbn [inlen shape fst snd] in Hx.
+    + destruct (IHe A Fwd (scatter S (snd (shape e)) cs x)) as [E1 R1];
+        [apply vreal_scatter; auto | apply scatter_length |].
+      assert (K1 : ap Fwd (Cols cs e) x = ap Fwd e (scatter S (snd (shape e)) cs x)).
+      { cbn [ap]. destruct (explicitA e) as [A0|] eqn:EA; auto.
+        rewrite (explicitA_dense _ _ EA) in D1. rewrite E1. rewrite (FC x Hx). rewrite D1. reflexivity. }
+      assert (K2 : ap Fwd (erase (Cols cs e)) x = ap Fwd e (scatter S (snd (shape e)) cs x)).
+      { cbn [erase]. rewrite (ap_fwd_dense _ x W2) by (unfold cols; cbn [shape snd]; auto).
+        cbn [dense]. rewrite <- (FC x Hx). auto. }
+      rewrite K1, K2. auto.
+    + destruct (IHe A Adj x Rx Hx) as [E1 R1].
+      assert (K1 : ap Adj (Cols cs e) x = gather S cs (ap Adj e x)).
+      { cbn [ap]. destruct (explicitA e) as [A0|] eqn:EA; auto.
+        rewrite (explicitA_dense _ _ EA) in D1. rewrite E1. rewrite (GC x Hx). rewrite D1. reflexivity. }
+      assert (K2 : ap Adj (erase (Cols cs e)) x = gather S cs (ap Adj e x)).
+      { cbn [erase]. rewrite (ap_adj_mvH _ x W2) by (unfold rows; cbn [shape fst]; rewrite erase_shape; auto).
+        unfold cols. cbn [dense shape snd]. rewrite <- (GC x Hx). rewrite E1. auto. }
+      rewrite K1, K2. split; auto. apply vreal_gather; auto.
+  - (* VStack *) intros (Rl & Wc) d x Rx Hx. apply rwf_all_Forall in Rl. pose proof (Forall_mp _ _ _ H0 Rl) as HP. clear H0.
+    destruct d; cbn [erase ap].
+    + rewrite map_map.
+      apply (cat_all_ext_real S (fun e => ap Fwd e) (fun e => ap Fwd (erase e))).
+      apply Forall_forall. intros a Ha. apply (proj1 (Forall_forall _ _) HP a Ha); auto.
+      cbn [inlen]. rewrite (proj1 (Forall_forall _ _) Wc a Ha). exact Hx.
+    + change (VStack (map erase es)) with (erase (VStack es)). rewrite erase_shape. rewrite map_map.
+      rewrite (map_ext (fun e => (fst (shape (erase e)), ap Adj (erase e))) (fun e => (fst (shape e), ap Adj (erase e))))
+        by (intros; rewrite erase_shape; auto).
+      apply (acc_slices_ext_real S (fun e => fst (shape e)) (fun e => ap Adj e) (fun e => ap Adj (erase e))); auto.
+      apply Forall_forall. intros a Ha u Ru Lu. apply (proj1 (Forall_forall _ _) HP a Ha); auto.
+  - (* HStack *) intros (Rl & Wc) d x Rx Hx. apply rwf_all_Forall in Rl. pose proof (Forall_mp _ _ _ H0 Rl) as HP. clear H0.
+    destruct d; cbn [erase ap].
+    + change (HStack (map erase es)) with (erase (HStack es)). rewrite erase_shape. rewrite map_map.
+      rewrite (map_ext (fun e => (snd (shape (erase e)), ap Fwd (erase e))) (fun e => (snd (shape e), ap Fwd (erase e))))
+        by (intros; rewrite erase_shape; auto).
+      apply (acc_slices_ext_real S (fun e => snd (shape e)) (fun e => ap Fwd e) (fun e => ap Fwd (erase e))); auto.
+      apply Forall_forall. intros a Ha u Ru Lu. apply (proj1 (Forall_forall _ _) HP a Ha); auto.
+    + rewrite map_map.
+      apply (cat_all_ext_real S (fun e => ap Adj e) (fun e => ap Adj (erase e))).
+      apply Forall_forall. intros a Ha. apply (proj1 (Forall_forall _ _) HP a Ha); auto.
+      cbn [inlen]. rewrite (proj1 (Forall_forall _ _) Wc a Ha). exact Hx.
+  - (* BlockDiag *) intros Rl d x Rx Hx. apply rwf_all_Forall in Rl. pose proof (Forall_mp _ _ _ H0 Rl) as HP. clear H0.
+    destruct d; cbn [erase ap]; rewrite map_map.
+    + rewrite (map_ext (fun e => (snd (shape (erase e)), ap Fwd (erase e))) (fun e => (snd (shape e), ap Fwd (erase e))))
+        by (intros; rewrite erase_shape; auto).
+      apply (cat_slices_ext_real S (fun e => snd (shape e)) (fun e => ap Fwd e) (fun e => ap Fwd (erase e))); auto.
+      apply Forall_forall. intros a Ha u Ru Lu. apply (proj1 (Forall_forall _ _) HP a Ha); auto.
+    + rewrite (map_ext (fun e => (fst (shape (erase e)), ap Adj (erase e))) (fun e => (fst (shape e), ap Adj (erase e))))
+        by (intros; rewrite erase_shape; auto).
+      apply (cat_slices_ext_real S (fun e => fst (shape e)) (fun e => ap Adj e) (fun e => ap Adj (erase e))); auto.
+      apply Forall_forall. intros a Ha u Ru Lu. apply (proj1 (Forall_forall _ _) HP a Ha); auto.
+  - (* Kron *) intros (A & B) d x Rx Hx. destruct d; cbn [erase ap]; rewrite !erase_shape; cbn [inlen shape fst snd] in Hx.
+    + apply kron_ap_ext_real; auto; intros u Ru Lu; first [apply (IHe2 B Fwd); auto; fail | apply (IHe1 A Fwd); auto; fail].
+    + apply kron_ap_ext_real; auto; intros u Ru Lu; first [apply (IHe2 B Adj); auto; fail | apply (IHe1 A Adj); auto; fail].
   - intros (-> & -> & HA) d x Rx Hx. cbn [inlen shape] in Hx.
     assert (K : ap d e x = match d with Fwd => mv S (dense e) x | Adj => mvH S (snd (shape e)) (dense e) x end).
     { destruct HA as [Wa | Ra].
